@@ -1,1 +1,601 @@
-//! (stub; see lib.rs for the owner)
+//! DTLS handshake rig (owner: C11 / C02): two (or more) real `DtlsTransport`s over `IceConn`s on
+//! loopback UDP sockets, joined by a 4-socket proxy that understands epoch-0 DTLS records.
+//!
+//! The proxy classifies every datagram by content (record content type, epoch, and - for plaintext
+//! handshake records - handshake type, message_seq, fragment offsets) and applies a *content-addressed*
+//! schedule of operations `(dir, label, ordinal, kind)`:
+//!
+//!   network faults (C11):   drop | dup | hold (k later datagrams of the same direction overtake it)
+//!                           | split (legal re-fragmentation of one handshake message into n fragments)
+//!   adversary ops  (C02):   rewrite (certificate / SKE key / SKE signature / randoms / ...), omit (drop and
+//!                           renumber), retype, inject (records built from the adversary's own credentials)
+//!
+//! Nothing here is time-addressed: the k-th datagram carrying label L in direction D is the same datagram
+//! in every rerun, whatever the scheduling.
+//!
+//! Labels: CH SH HVR CERT SKE CR SHD CV CKE (plaintext handshake), FIN (encrypted handshake record),
+//! CCS, ALERT, APP. A fragment produced by `split` is labelled `<L>#<i>` (i = 1..n). A datagram holding
+//! several records is labelled by its records joined with '+'.
+
+use bytes::Bytes;
+use rustrtc::transports::PacketReceiver;
+use rustrtc::transports::dtls::{self, Certificate, DtlsState, DtlsTransport};
+use rustrtc::transports::ice::IceSocketWrapper;
+use rustrtc::transports::ice::conn::IceConn;
+use serde_json::{Value, json};
+use std::collections::HashMap;
+use std::net::SocketAddr;
+use std::sync::Arc;
+use tokio::net::UdpSocket;
+use tokio::sync::{mpsc, watch};
+use tokio::task::JoinHandle;
+
+// ------------------------------------------------------------------------------------------------
+// wire parsing (independent of the decoder under test)
+
+#[derive(Clone, Debug)]
+pub struct Rec {
+    pub ctype: u8,
+    pub epoch: u16,
+    pub rseq: u64,
+    pub body: Vec<u8>, // record payload
+}
+
+#[derive(Clone, Debug)]
+pub struct Hs {
+    pub typ: u8,
+    pub total: u32,
+    pub mseq: u16,
+    pub off: u32,
+    pub flen: u32,
+    pub body: Vec<u8>,
+}
+
+pub fn parse_records(d: &[u8]) -> Vec<Rec> {
+    let mut out = Vec::new();
+    let mut i = 0;
+    while d.len() >= i + 13 {
+        let len = u16::from_be_bytes([d[i + 11], d[i + 12]]) as usize;
+        if d.len() < i + 13 + len {
+            break;
+        }
+        let mut s = [0u8; 8];
+        s[2..8].copy_from_slice(&d[i + 5..i + 11]);
+        out.push(Rec {
+            ctype: d[i],
+            epoch: u16::from_be_bytes([d[i + 3], d[i + 4]]),
+            rseq: u64::from_be_bytes(s),
+            body: d[i + 13..i + 13 + len].to_vec(),
+        });
+        i += 13 + len;
+    }
+    out
+}
+
+pub fn encode_record(r: &Rec) -> Vec<u8> {
+    let mut b = Vec::with_capacity(13 + r.body.len());
+    b.push(r.ctype);
+    b.extend_from_slice(&[254, 253]);
+    b.extend_from_slice(&r.epoch.to_be_bytes());
+    b.extend_from_slice(&r.rseq.to_be_bytes()[2..8]);
+    b.extend_from_slice(&(r.body.len() as u16).to_be_bytes());
+    b.extend_from_slice(&r.body);
+    b
+}
+
+/// Handshake messages inside one plaintext handshake record.
+pub fn parse_hs(p: &[u8]) -> Vec<Hs> {
+    let mut out = Vec::new();
+    let mut i = 0;
+    while p.len() >= i + 12 {
+        let total = u32::from_be_bytes([0, p[i + 1], p[i + 2], p[i + 3]]);
+        let mseq = u16::from_be_bytes([p[i + 4], p[i + 5]]);
+        let off = u32::from_be_bytes([0, p[i + 6], p[i + 7], p[i + 8]]);
+        let flen = u32::from_be_bytes([0, p[i + 9], p[i + 10], p[i + 11]]);
+        if p.len() < i + 12 + flen as usize {
+            break;
+        }
+        out.push(Hs { typ: p[i], total, mseq, off, flen, body: p[i + 12..i + 12 + flen as usize].to_vec() });
+        i += 12 + flen as usize;
+    }
+    out
+}
+
+pub fn encode_hs(h: &Hs) -> Vec<u8> {
+    let mut b = Vec::with_capacity(12 + h.body.len());
+    b.push(h.typ);
+    b.extend_from_slice(&h.total.to_be_bytes()[1..4]);
+    b.extend_from_slice(&h.mseq.to_be_bytes());
+    b.extend_from_slice(&h.off.to_be_bytes()[1..4]);
+    b.extend_from_slice(&h.flen.to_be_bytes()[1..4]);
+    b.extend_from_slice(&h.body);
+    b
+}
+
+pub fn hs_name(t: u8) -> &'static str {
+    match t {
+        0 => "HR",
+        1 => "CH",
+        2 => "SH",
+        3 => "HVR",
+        11 => "CERT",
+        12 => "SKE",
+        13 => "CR",
+        14 => "SHD",
+        15 => "CV",
+        16 => "CKE",
+        20 => "FIN0",
+        _ => "HS?",
+    }
+}
+
+pub fn hs_type_of(name: &str) -> u8 {
+    match name {
+        "HR" => 0,
+        "CH" => 1,
+        "SH" => 2,
+        "HVR" => 3,
+        "CERT" => 11,
+        "SKE" => 12,
+        "CR" => 13,
+        "SHD" => 14,
+        "CV" => 15,
+        "CKE" => 16,
+        "FIN0" | "FIN" => 20,
+        _ => 255,
+    }
+}
+
+pub fn rec_label(r: &Rec) -> String {
+    match r.ctype {
+        20 => "CCS".into(),
+        21 => "ALERT".into(),
+        23 => "APP".into(),
+        22 if r.epoch > 0 => "FIN".into(),
+        22 => {
+            let hs = parse_hs(&r.body);
+            match hs.first() {
+                Some(h) if h.flen != h.total => format!("{}@{}", hs_name(h.typ), h.off),
+                Some(h) => hs_name(h.typ).to_string(),
+                None => "HS?".into(),
+            }
+        }
+        _ => "?".into(),
+    }
+}
+
+pub fn dgram_label(d: &[u8]) -> String {
+    let recs = parse_records(d);
+    if recs.is_empty() {
+        return "?".into();
+    }
+    recs.iter().map(rec_label).collect::<Vec<_>>().join("+")
+}
+
+pub fn describe(d: &[u8]) -> Value {
+    let recs = parse_records(d);
+    Value::Array(
+        recs.iter()
+            .map(|r| {
+                if r.ctype == 22 && r.epoch == 0 {
+                    let hs = parse_hs(&r.body);
+                    json!({"ct": r.ctype, "ep": r.epoch, "rs": r.rseq,
+                           "hs": hs.iter().map(|h| json!({"t": hs_name(h.typ), "ms": h.mseq, "off": h.off,
+                               "fl": h.flen, "tot": h.total, "bh": rustrtc::verif::hash32(&h.body)})).collect::<Vec<_>>()})
+                } else {
+                    json!({"ct": r.ctype, "ep": r.epoch, "rs": r.rseq, "len": r.body.len()})
+                }
+            })
+            .collect(),
+    )
+}
+
+// ------------------------------------------------------------------------------------------------
+// schedule
+
+#[derive(Clone, Debug)]
+pub struct Op {
+    pub dir: String,   // "C>S" | "S>C"
+    pub label: String, // see module doc
+    pub ord: u32,      // 1-based ordinal of (dir, label)
+    pub kind: String,  // drop | dup | hold | split | rw | omit | inject
+    pub arg: Value,    // kind-specific
+    pub fired: bool,
+}
+
+impl Op {
+    pub fn from_json(v: &Value) -> Op {
+        Op {
+            dir: v["dir"].as_str().unwrap_or("").to_string(),
+            label: v["msg"].as_str().unwrap_or("").to_string(),
+            ord: v["ord"].as_u64().unwrap_or(1) as u32,
+            kind: v["kind"].as_str().unwrap_or("").to_string(),
+            arg: v.get("arg").cloned().unwrap_or(Value::Null),
+            fired: false,
+        }
+    }
+    pub fn to_json(&self) -> Value {
+        json!({"dir": self.dir, "msg": self.label, "ord": self.ord, "kind": self.kind, "arg": self.arg, "fired": self.fired})
+    }
+}
+
+/// Rewriter callback: (op, datagram) -> replacement datagrams. Installed by the C02 harness.
+pub type Rewriter = Arc<dyn Fn(&Op, &[u8]) -> Vec<Vec<u8>> + Send + Sync>;
+
+pub struct ProxyState {
+    pub ops: Vec<Op>,
+    counts: HashMap<(String, String), u32>,
+    held: HashMap<String, Vec<(u32, Vec<u8>, String)>>, // dir -> (remaining, datagram, label)
+    next_frag_rseq: u64,
+    pub rewriter: Option<Rewriter>,
+    /// message_seq shift applied to plaintext handshake messages per direction (after an `omit`).
+    seq_shift: HashMap<String, i32>,
+    pub forwarded: u64,
+    /// every original (pre-fault) plaintext handshake message seen: (dir, type, mseq) -> body hash
+    pub originals: Vec<Value>,
+}
+
+impl ProxyState {
+    pub fn new(ops: Vec<Op>) -> Self {
+        ProxyState {
+            ops,
+            counts: HashMap::new(),
+            held: HashMap::new(),
+            next_frag_rseq: 0x4000_0000,
+            rewriter: None,
+            seq_shift: HashMap::new(),
+            forwarded: 0,
+            originals: Vec::new(),
+        }
+    }
+
+    fn ordinal(&mut self, dir: &str, label: &str) -> u32 {
+        let c = self.counts.entry((dir.to_string(), label.to_string())).or_insert(0);
+        *c += 1;
+        *c
+    }
+
+    fn take_op(&mut self, dir: &str, label: &str, ord: u32, kinds: &[&str]) -> Option<Op> {
+        for op in self.ops.iter_mut() {
+            if !op.fired && op.dir == dir && op.label == label && op.ord == ord && kinds.contains(&op.kind.as_str()) {
+                op.fired = true;
+                return Some(op.clone());
+            }
+        }
+        None
+    }
+
+    /// Legal re-fragmentation of the (single, unfragmented) handshake message in `d` into `n` fragments.
+    /// `cuts` (optional) are the fragment boundaries as byte offsets into the message body.
+    fn split(&mut self, d: &[u8], n: usize, cuts: Option<Vec<usize>>, same_dgram: bool) -> Option<Vec<(Vec<u8>, usize)>> {
+        let recs = parse_records(d);
+        if recs.len() != 1 || recs[0].ctype != 22 || recs[0].epoch != 0 {
+            return None;
+        }
+        let hs = parse_hs(&recs[0].body);
+        if hs.len() != 1 || hs[0].off != 0 || hs[0].flen != hs[0].total {
+            return None;
+        }
+        let h = &hs[0];
+        let len = h.body.len();
+        if len < n {
+            return None;
+        }
+        let mut bounds: Vec<usize> = match cuts {
+            Some(c) => c.into_iter().filter(|x| *x > 0 && *x < len).collect(),
+            None => (1..n).map(|i| i * len / n).collect(),
+        };
+        bounds.sort();
+        bounds.dedup();
+        let mut edges = vec![0usize];
+        edges.extend(bounds);
+        edges.push(len);
+        let mut frags = Vec::new();
+        for (i, w) in edges.windows(2).enumerate() {
+            let fh = Hs { typ: h.typ, total: h.total, mseq: h.mseq, off: w[0] as u32, flen: (w[1] - w[0]) as u32, body: h.body[w[0]..w[1]].to_vec() };
+            let rseq = if i == 0 {
+                recs[0].rseq
+            } else {
+                self.next_frag_rseq += 1;
+                self.next_frag_rseq
+            };
+            frags.push(encode_record(&Rec { ctype: 22, epoch: 0, rseq, body: encode_hs(&fh) }));
+        }
+        if same_dgram {
+            Some(vec![(frags.concat(), 0)])
+        } else {
+            Some(frags.into_iter().enumerate().map(|(i, f)| (f, i + 1)).collect())
+        }
+    }
+
+    fn apply_seq_shift(&self, dir: &str, d: &[u8]) -> Vec<u8> {
+        let shift = *self.seq_shift.get(dir).unwrap_or(&0);
+        if shift == 0 {
+            return d.to_vec();
+        }
+        let mut out = Vec::new();
+        for mut r in parse_records(d) {
+            if r.ctype == 22 && r.epoch == 0 {
+                let mut body = Vec::new();
+                for mut h in parse_hs(&r.body) {
+                    h.mseq = (h.mseq as i32 + shift).max(0) as u16;
+                    body.extend(encode_hs(&h));
+                }
+                r.body = body;
+            }
+            out.extend(encode_record(&r));
+        }
+        out
+    }
+
+    /// Process one datagram travelling in `dir`; returns the datagrams to put on the wire now, in order.
+    pub fn process(&mut self, dir: &str, d: &[u8]) -> Vec<Vec<u8>> {
+        let base = dgram_label(d);
+        // remember the original plaintext handshake messages (content oracle for reassembly checks)
+        for r in parse_records(d) {
+            if r.ctype == 22 && r.epoch == 0 {
+                for h in parse_hs(&r.body) {
+                    if h.off == 0 && h.flen == h.total {
+                        self.originals.push(json!({"dir": dir, "t": h.typ, "ms": h.mseq, "len": h.body.len(),
+                                                   "bh": rustrtc::verif::hash32(&h.body)}));
+                    }
+                }
+            }
+        }
+        let ord = self.ordinal(dir, &base);
+        net_event("rx", json!({"dir": dir, "msg": base, "ord": ord, "recs": describe(d)}));
+
+        // stage 1: transformations of the datagram itself
+        let mut stage1: Vec<(Vec<u8>, String, u32)> = Vec::new(); // (bytes, label, ordinal)
+        if let Some(op) = self.take_op(dir, &base, ord, &["split"]) {
+            let n = op.arg["n"].as_u64().unwrap_or(2) as usize;
+            let cuts = op.arg["cuts"].as_array().map(|a| a.iter().filter_map(|x| x.as_u64().map(|y| y as usize)).collect());
+            let same = op.arg["same_dgram"].as_bool().unwrap_or(false);
+            match self.split(d, n, cuts, same) {
+                Some(parts) => {
+                    net_event("split", json!({"dir": dir, "msg": base, "ord": ord, "n": parts.len(), "same_dgram": same}));
+                    for (bytes, idx) in parts {
+                        if idx == 0 {
+                            stage1.push((bytes, base.clone(), ord));
+                        } else {
+                            let l = format!("{base}#{idx}");
+                            let o = self.ordinal(dir, &l);
+                            stage1.push((bytes, l, o));
+                        }
+                    }
+                }
+                None => {
+                    net_event("split_na", json!({"dir": dir, "msg": base, "ord": ord}));
+                    stage1.push((d.to_vec(), base.clone(), ord));
+                }
+            }
+        } else if let Some(op) = self.take_op(dir, &base, ord, &["rw", "omit", "inject_before", "inject_after"]) {
+            match op.kind.as_str() {
+                "omit" => {
+                    // drop the message and close the gap in message_seq for everything that follows
+                    let n_hs: i32 = parse_records(d).iter().filter(|r| r.ctype == 22 && r.epoch == 0).map(|r| parse_hs(&r.body).len() as i32).sum();
+                    *self.seq_shift.entry(dir.to_string()).or_insert(0) -= n_hs;
+                    net_event("omit", json!({"dir": dir, "msg": base, "ord": ord}));
+                }
+                _ => {
+                    let rw = self.rewriter.clone();
+                    let outs = match rw {
+                        Some(f) => f(&op, d),
+                        None => vec![d.to_vec()],
+                    };
+                    net_event("rw", json!({"dir": dir, "msg": base, "ord": ord, "kind": op.kind, "arg": op.arg, "n_out": outs.len()}));
+                    for o in outs {
+                        let l = dgram_label(&o);
+                        stage1.push((o, l, ord));
+                    }
+                }
+            }
+        } else {
+            stage1.push((d.to_vec(), base.clone(), ord));
+        }
+
+        // stage 2: network faults on each resulting datagram
+        let mut wire = Vec::new();
+        for (bytes, label, o) in stage1 {
+            let bytes = self.apply_seq_shift(dir, &bytes);
+            if self.take_op(dir, &label, o, &["drop"]).is_some() {
+                net_event("drop", json!({"dir": dir, "msg": label, "ord": o}));
+                continue;
+            }
+            if let Some(op) = self.take_op(dir, &label, o, &["hold"]) {
+                let k = op.arg["k"].as_u64().unwrap_or(1) as u32;
+                net_event("hold", json!({"dir": dir, "msg": label, "ord": o, "k": k}));
+                self.held.entry(dir.to_string()).or_default().push((k, bytes, label));
+                continue;
+            }
+            let dup = self.take_op(dir, &label, o, &["dup"]).is_some();
+            net_event("tx", json!({"dir": dir, "msg": label, "ord": o, "dup": dup}));
+            wire.push(bytes.clone());
+            if dup {
+                wire.push(bytes);
+            }
+            // one datagram has overtaken every held datagram of this direction
+            if let Some(h) = self.held.get_mut(dir) {
+                let mut keep = Vec::new();
+                for (k, b, l) in h.drain(..) {
+                    if k <= 1 {
+                        net_event("release", json!({"dir": dir, "msg": l}));
+                        wire.push(b);
+                    } else {
+                        keep.push((k - 1, b, l));
+                    }
+                }
+                *h = keep;
+            }
+        }
+        self.forwarded += wire.len() as u64;
+        wire
+    }
+
+    pub fn held_count(&self) -> usize {
+        self.held.values().map(|v| v.len()).sum()
+    }
+}
+
+pub fn net_event(ev: &'static str, fields: Value) {
+    rustrtc::verif::emit("net", "P", ev, fields);
+}
+
+// ------------------------------------------------------------------------------------------------
+// endpoints
+
+pub struct Endpoint {
+    pub label: String,
+    pub is_client: bool,
+    pub dtls: Arc<DtlsTransport>,
+    pub conn: Arc<IceConn>,
+    pub app_rx: mpsc::UnboundedReceiver<Bytes>,
+    pub sock: Arc<UdpSocket>,
+    pub addr: SocketAddr,
+    pub cert: Certificate,
+    pub fp: String,
+    _sock_tx: watch::Sender<Option<IceSocketWrapper>>,
+    runner: parking_lot::Mutex<Option<std::pin::Pin<Box<dyn std::future::Future<Output = ()> + Send>>>>,
+    tasks: Vec<JoinHandle<()>>,
+}
+
+impl Endpoint {
+    /// Build the endpoint (registers the DTLS receiver with the IceConn) but start nothing yet.
+    pub async fn build(label: &str, is_client: bool, cert: Certificate, expected_fp: Option<String>, remote: SocketAddr) -> anyhow::Result<Endpoint> {
+        let sock = Arc::new(UdpSocket::bind("127.0.0.1:0").await?);
+        let addr = sock.local_addr()?;
+        let (tx, rx) = watch::channel(Some(IceSocketWrapper::Udp(sock.clone())));
+        let conn = IceConn::new(rx, remote, Some(label.to_string()));
+        let fp = dtls::fingerprint(&cert);
+        let (dtls, app_rx, runner) = DtlsTransport::new(conn.clone(), cert.clone(), is_client, 2048, expected_fp).await?;
+        Ok(Endpoint {
+            label: label.to_string(),
+            is_client,
+            dtls,
+            conn,
+            app_rx,
+            sock,
+            addr,
+            cert,
+            fp,
+            _sock_tx: tx,
+            runner: parking_lot::Mutex::new(Some(Box::pin(runner))),
+            tasks: Vec::new(),
+        })
+    }
+
+    /// Start the socket read loop (the DTLS receiver is already registered) and then the handshake task.
+    pub fn start(&mut self) {
+        let sock = self.sock.clone();
+        let conn = self.conn.clone();
+        self.tasks.push(tokio::spawn(async move {
+            let mut buf = vec![0u8; 4096];
+            let mut mb = Vec::new();
+            loop {
+                match sock.recv_from(&mut buf).await {
+                    Ok((n, from)) => conn.receive(Bytes::copy_from_slice(&buf[..n]), from, &mut mb).await,
+                    Err(_) => break,
+                }
+            }
+        }));
+        let r = self.runner.lock().take();
+        if let Some(r) = r {
+            self.tasks.push(tokio::spawn(r));
+        }
+    }
+
+    pub fn state_name(&self) -> &'static str {
+        state_name(&self.dtls.get_state())
+    }
+
+    /// Stop every task of this endpoint and wait until they are gone (no hook event can follow).
+    pub async fn shutdown(mut self) {
+        self.dtls.close();
+        for t in &self.tasks {
+            t.abort();
+        }
+        for t in self.tasks.drain(..) {
+            let _ = t.await;
+        }
+    }
+}
+
+pub fn state_name(s: &DtlsState) -> &'static str {
+    match s {
+        DtlsState::New => "New",
+        DtlsState::Handshaking => "Handshaking",
+        DtlsState::Connected(..) => "Connected",
+        DtlsState::Failed => "Failed",
+        DtlsState::Closed => "Closed",
+    }
+}
+
+// ------------------------------------------------------------------------------------------------
+// the proxy
+
+pub struct Proxy {
+    pub state: Arc<parking_lot::Mutex<ProxyState>>,
+    pub c_side: Arc<UdpSocket>, // faces the client endpoint
+    pub s_side: Arc<UdpSocket>, // faces the server endpoint
+    pub c_side_addr: SocketAddr,
+    pub s_side_addr: SocketAddr,
+    task: Option<JoinHandle<()>>,
+}
+
+impl Proxy {
+    pub async fn bind(ops: Vec<Op>) -> anyhow::Result<Proxy> {
+        let c_side = Arc::new(UdpSocket::bind("127.0.0.1:0").await?);
+        let s_side = Arc::new(UdpSocket::bind("127.0.0.1:0").await?);
+        Ok(Proxy {
+            state: Arc::new(parking_lot::Mutex::new(ProxyState::new(ops))),
+            c_side_addr: c_side.local_addr()?,
+            s_side_addr: s_side.local_addr()?,
+            c_side,
+            s_side,
+            task: None,
+        })
+    }
+
+    /// Forward between `client` (endpoint socket address) and `server`, applying the schedule.
+    pub fn start(&mut self, client: SocketAddr, server: SocketAddr) {
+        let st = self.state.clone();
+        let cs = self.c_side.clone();
+        let ss = self.s_side.clone();
+        self.task = Some(tokio::spawn(async move {
+            let mut b1 = vec![0u8; 4096];
+            let mut b2 = vec![0u8; 4096];
+            loop {
+                tokio::select! {
+                    biased;
+                    r = cs.recv_from(&mut b1) => {
+                        let Ok((n, _)) = r else { break };
+                        let outs = st.lock().process("C>S", &b1[..n]);
+                        for o in outs { let _ = ss.send_to(&o, server).await; }
+                    }
+                    r = ss.recv_from(&mut b2) => {
+                        let Ok((n, _)) = r else { break };
+                        let outs = st.lock().process("S>C", &b2[..n]);
+                        for o in outs { let _ = cs.send_to(&o, client).await; }
+                    }
+                }
+            }
+        }));
+    }
+
+    /// Send a datagram built by the harness as if it came from the peer (adversary injection).
+    pub async fn inject(&self, dir: &str, d: &[u8], client: SocketAddr, server: SocketAddr) {
+        net_event("inject", json!({"dir": dir, "msg": dgram_label(d), "recs": describe(d)}));
+        if dir == "C>S" {
+            let _ = self.s_side.send_to(d, server).await;
+        } else {
+            let _ = self.c_side.send_to(d, client).await;
+        }
+    }
+
+    pub async fn shutdown(mut self) {
+        if let Some(t) = self.task.take() {
+            t.abort();
+            let _ = t.await;
+        }
+    }
+}
